@@ -7,36 +7,36 @@ open YaegiVerif.Share
 def share : ShareFacts :=
   { assignCopies := true,
     multiTemps := true,
-    multiDefineTemps := false,          -- F21: the multi-define branch stores sequentially
-    multiDefineRedeclAssigns := false,  -- … and re-allocates every name, redeclared or not
+    multiDefineTemps := true,           -- since 3e30c22 (was F21: the multi-define branch stored sequentially)
+    multiDefineRedeclAssigns := false,  -- every name is re-allocated, redeclared or not (finding F04-5)
     defineFresh := true,
     callCopiesArgs := true,
     rangeSnapshotsArray := true,
     closureClonesFrame := true,
     callShortcut := true,
     litShortcut := true,
-    shortcutGuardsSingle := false,      -- `n.gen = nop` whatever the arity of the assignment
+    shortcutGuardsSingle := true,       -- since 647e2cf an arm `n.nleft > 1 && (isCall(src) || … aCompositeLit)` keeps them for single assignments
     structLitSetsSlot := true,          -- doComposite: `getFrame(f, l).data[frameIndex] = a`
+    structLitAssignSets := true,        -- since 3590fb8: `case n.anc.kind == assignStmt: d.Set(a)`
     arrayLitSets := true,
-    lookup2OnlyIfValid := true,
+    lookup2OnlyIfValid := false,        -- since 6b8d7ae the zero value is stored for a missing key
     appendArgsAreSlots := true }
 
 /-- fingerprints (extract/common FuncHash) of the functions Model/Share.lean was transcribed from -/
 def sourceHashes : List (String × String) :=
-  [("assign", "d3eb5ba48405d0d4"),
+  [("assign", "cba47e3270d77930"),
    ("assignFromCall", "68cf8ed8c8ebe68c"),
    ("addr", "bebc2c833afadc2f"),
    ("deref", "5f8bcb6331f999cc"),
-   ("call", "a144e4e9c42a5836"),
    ("getIndexArray", "e067901410b4a4f2"),
    ("getIndexMap", "0b8ebf5d3a7abe7c"),
-   ("getIndexMap2", "88e9afeb63c825d8"),
+   ("getIndexMap2", "b8eb27fd4a7debef"),
    ("getFunc", "e1777a5459c1a52e"),
    ("getIndexSeq", "c66a0fd6057b0616"),
    ("getPtrIndexSeq", "6be9b51311dc6a9e"),
    ("arrayLit", "f508bcc568dd484a"),
    ("mapLit", "8770c40d9f4ba94a"),
-   ("doComposite", "a09ceef281936922"),
+   ("doComposite", "cc9a326983ac6414"),
    ("_range", "981bda182a8cb10c"),
    ("loopVarKey", "850d1ef64799110f"),
    ("loopVarVal", "fcbafb1e09580702"),
@@ -46,9 +46,10 @@ def sourceHashes : List (String × String) :=
    ("_delete", "3814292d45cb5cab"),
    ("slice", "943a0297b4418338"),
    ("slice0", "e3dfcf7fb18203eb"),
+   ("call: exec of an ordinary call", "14c35d1afee89425"),
    ("genValueRangeArray", "85bb294bc9e6c2d8"),
    ("genValueArray", "7423f6a50d5d826f"),
    ("genDestValue", "6d332c89aa45b5ab"),
-   ("cfg.go: case assignStmt, defineStmt", "88a4afa1a7216eb5")]
+   ("cfg.go: case assignStmt, defineStmt", "a37462e3d79cb0e3")]
 
 end YaegiVerif.Expected.C04
